@@ -276,6 +276,23 @@ func cmdCheck(args []string) int {
 	for n := range baseUndecided {
 		undecidedSiblings[baseName(n)] = true
 	}
+	// (function, kind) pairs that lost a baseline obligation in this run: a proved check was replaced by something else
+	nowNames := map[string]bool{}
+	for _, r := range run.Results {
+		for _, o := range r.Obls {
+			nowNames[o.Name] = true
+		}
+	}
+	goneFK := map[string]bool{}
+	for n := range base {
+		if !nowNames[n] {
+			parts := strings.SplitN(n, "/", 4)
+			if len(parts) >= 3 {
+				// names are <pkg>/<fn>/<kind>/<text>: the function key itself contains one slash
+				goneFK[parts[0]+"/"+parts[1]+"/"+parts[2]] = true
+			}
+		}
+	}
 	for _, r := range run.Results {
 		solverSecs += r.SolverSecs
 		if r.frame != nil && len(r.Obls) > 0 && !r.CoverOK && r.CoverAnswer != "no-return" {
@@ -313,10 +330,31 @@ func cmdCheck(args []string) int {
 				fmt.Printf("KNOWN-FINDING: property=%s %s witness: %s\n", id, o.Name, kf.Witness)
 				continue
 			}
+			if !isClaimed && !baseUndecided[o.Name] && !*writeBaseline && o.Model == "" && r.frame != nil && r.query != nil && apiReachable(r.frame.fn) && !contractKinds[o.Kind] {
+				// a new potentially panicking instruction of a public function without a candidate input yet: one more,
+				// longer search on the quantifier-free weakening (the candidate is only ever used for replay)
+				lq := r.query.backgroundLite(o.AssertIdx) + "(assert " + o.Guard + ")\n(assert (not " + o.Cond + "))\n(check-sat)\n(get-model)\n"
+				lr := solve(lq, 40, tier.Seed+17, false)
+				if lr.Answer == "sat" {
+					o.Model = lr.Model
+					o.ModelLite = true
+				}
+				if os.Getenv("GOVC_DEBUG_REPLAY") != "" {
+					fmt.Fprintf(os.Stderr, "new-obligation search %s: %s\n", o.Name, lr.Answer)
+				}
+			}
 			if !isClaimed && !baseUndecided[o.Name] && !*writeBaseline && o.Model != "" && r.frame != nil && apiReachable(r.frame.fn) {
 				// a new potentially panicking instruction (not present on the unchanged tree): replay its counter-model
-				if spec := genericReplay(e, r, o); spec != nil {
-					if out, failed := runReplay(e, spec); failed {
+				spec := genericReplay(e, r, o)
+				if os.Getenv("GOVC_DEBUG_REPLAY") != "" {
+					fmt.Fprintf(os.Stderr, "new-obligation replay %s: spec=%v\n", o.Name, spec != nil)
+				}
+				if spec != nil {
+					out, failed := runReplay(e, spec)
+					if os.Getenv("GOVC_DEBUG_REPLAY") != "" {
+						fmt.Fprintf(os.Stderr, "  replay failed=%v must=%q out=%.600s\nSOURCE:\n%s\n", failed, spec.MustContain, out, spec.Source)
+					}
+					if failed {
 						_ = out
 						rp := writeReplay(e, run, r, o)
 						line := fmt.Sprintf("VIOLATION property=%s replay=%s", id, rp.Path)
@@ -325,6 +363,14 @@ func cmdCheck(args []string) int {
 						continue
 					}
 				}
+			}
+			if !isClaimed && !*writeBaseline && !contractKinds[o.Kind] && o.Answer == "sat" && !baseUndecided[o.Name] && knownFns[o.Fn] && goneFK[o.Fn+"/"+o.Kind] && !callsNewFunction(e, o.Fn, knownFns) {
+				// a panic-freedom obligation of this function and kind was discharged on the unchanged tree and no longer
+				// exists; in its place there is one the solver refutes under the contracts (sat on the full background,
+				// not a timeout), in a function that calls nothing new (a new helper without a contract returns
+				// arbitrary values in the model): the proved check was replaced by one that does not hold
+				isClaimed = true
+				o.Desc = strings.TrimSpace(o.Desc + " (replaces a discharged " + o.Kind + " obligation of the unchanged tree)")
 			}
 			if !isClaimed {
 				undecided++
@@ -400,9 +446,10 @@ func cmdCheck(args []string) int {
 				continue
 			}
 			rp := writeReplay(e, run, f.r, f.o)
-			if !contractKinds[f.o.Kind] && !rp.Confirmed {
-				// a panic-freedom obligation that was discharged on the unchanged tree and is not now, but for which no
-				// input makes the real code panic at that instruction: proof regression, not evidence of a violation
+			if !contractKinds[f.o.Kind] && !rp.Confirmed && f.o.Answer != "sat" {
+				// a panic-freedom obligation that was discharged on the unchanged tree, is undecided now (timeout / unknown,
+				// not refuted) and for which no input makes the real code panic at that instruction: proof regression,
+				// not evidence of a violation. A refuted one (sat under the contracts) is reported.
 				claimed--
 				undecided++
 				regressed = append(regressed, f.o.Name+" ["+f.o.Answer+"]")
@@ -631,4 +678,44 @@ func writeReplay(e *Engine, run *PropRun, r *FnResult, o *Obligation) replayResu
 	b, _ := json.MarshalIndent(rec, "", " ")
 	os.WriteFile(path, b, 0o644)
 	return replayResult{Path: path, Confirmed: confirmed}
+}
+
+// callsNewFunction: does the function (or a closure of it) call a repository function that did not exist when the
+// baselines were taken?
+func callsNewFunction(e *Engine, key string, known map[string]bool) bool {
+	fn := e.Fn(key)
+	if fn == nil {
+		return true
+	}
+	var visit func(f *ssa.Function) bool
+	visit = func(f *ssa.Function) bool {
+		for _, b := range f.Blocks {
+			for _, ins := range b.Instrs {
+				ci, ok := ins.(ssa.CallInstruction)
+				if !ok {
+					continue
+				}
+				c := ci.Common().StaticCallee()
+				if c == nil || !e.inRepo(c) {
+					continue
+				}
+				if c.Parent() != nil {
+					if visit(c) {
+						return true
+					}
+					continue
+				}
+				if !known[fnKey(c)] {
+					return true
+				}
+			}
+		}
+		for _, an := range f.AnonFuncs {
+			if visit(an) {
+				return true
+			}
+		}
+		return false
+	}
+	return visit(fn)
 }
